@@ -271,6 +271,15 @@ CORPUS = [
        lambda L, x: {"a": 2.0 / x, "b": 5 - x, "c": 2 ** x, "d": 7 % (x * x + 1), "e": 3 // (x * x + 1)}),
     _P("intdiv_mod", [ph("m", (5,), I64), ph("n", (5,), I64)],
        lambda L, m, n: {"q": m // (n * n + 1), "r": m % (n * n + 1), "p": m ** 2}),
+    _P("logical_nonbool", [ph("m", (4,), I64), ph("n", (4,), I64), ph("x", (4,)), ph("y", (4,))],
+       # truthiness of non-boolean operands (2 and 1 is True although 2 & 1 == 0)
+       lambda L, m, n, x, y: {"and_i": L.logical_and(m, n), "or_i": L.logical_or(m, n), "and_f": L.logical_and(x, y),
+                              "or_fi": L.logical_or(x, m), "cnt": L.sum(L.where(L.logical_and(m, n), 1, 0)),
+                              "w": L.where(L.logical_or(m, n), x, y)},
+       # (sum of a bool array keeps dtype bool in pytato -- listed C03 finding -- hence the astype; logical_not is
+       #  refused by the Python target, so it lives in compare_logic)
+       tags=("reduction",),
+       fixed_data={"m": [2, 0, 1, -4], "n": [1, 0, 0, 3], "x": [0.5, 0.0, -2.0, 0.0], "y": [0.0, 0.0, 4.0, 1.5]}),
     _P("compare_logic", [ph("x", (3, 3)), ph("y", (3,))],
        lambda L, x, y: {"lt": L.less(x, y), "ge": L.greater_equal(x, 0.5), "land": L.logical_and(L.less(x, y), L.greater(x, 0)),
                         "lor": L.logical_or(L.equal(x, y), L.not_equal(y, 1.0)), "lnot": L.logical_not(L.less_equal(x, y))}),
@@ -329,6 +338,11 @@ CORPUS = [
        lambda L, x, i, j: {"a": x[i], "b": x[:, i], "c": x[i, :, i], "d": x[j, i % 3], "e": x[i, 1], "f": x[1:3, i % 3, ::-1],
                            "g": x[i, :, 0], "h": x[1, i % 3], "k": x[2, i % 3, :], "l": (2 * x)[0, i % 3, 1:] + 1},
        tags=("advidx",), index_ranges={"i": (-2, 2), "j": (-4, 4)}),
+    _P("adv_index_long", [ph("x", (4, 3, 2)), ph("i5", (5,), I64), ph("k23", (2, 3), I64)],
+       # index arrays longer than the axes that follow them (a loop variable of the index array must never drive a slice)
+       lambda L, x, i5, k23: {"a": x[i5, 2, :], "b": x[i5, -1], "c": x[:, i5 % 3, 1], "d": x[k23, 0, ::-1], "e": x[i5, :, 0],
+                              "f": x[1, i5 % 3], "g": x[k23 % 2 + 1, k23 % 3]},
+       tags=("advidx",), index_ranges={"i5": (-4, 4), "k23": (-4, 4)}),
     _P("adv_index_4d", [ph("x", (2, 3, 2, 3)), ph("i", (2,), I64), ph("j", (2,), I64)],
        # non-contiguous groups that start with slices, groups ending in ints, reversed/stepped slices around them
        lambda L, x, i, j: {"a": x[:, i, :, j], "b": x[:, i, :, -1], "c": x[::-1, 2, 1:2, i], "d": x[:, i, j % 2, :],
@@ -908,6 +922,10 @@ SYM_CORPUS = [
             lambda L, S, x, y: {"o": x - y, "w": L.where(L.less(x, y), x, y)}),
     SymProg("sym_pad", ("n",), [("x", lambda n: (n,), F64)],
             lambda L, S, x: {"p": L.pad(x, (1, 2))}),
+    SymProg("sym_int_index", ("n", "m"), [("y", lambda n, m: (n + 2, m), F64), ("z", lambda n, m: (3, 2 * n + 1), F64)],
+            # integer indices (negative ones too) that are in bounds for every size
+            lambda L, S, y, z: {"last": y[-1], "last2": y[-2] * 2, "first": y[0], "mix": 2 * y[-1] + y[1], "zc": z[:, -1] + z[:, 0],
+                                "zr": z[-1]}),
     SymProg("sym_transpose3", ("n", "m"),
             [("a", lambda n, m: (n, m, 2), F64), ("b", lambda n, m: (2, n), F64), ("c", lambda n, m: (m, n + 1), F64)],
             lambda L, S, a, b, c: {"t120": L.transpose(a, (1, 2, 0)), "t201": L.transpose(a, (2, 0, 1)),
